@@ -355,14 +355,131 @@ class _QuietCtx:
 _QUIET = _QuietCtx()
 
 
+# ---------------------------------------------------------------- re-entrant
+def reentrant_cells(ctx):
+    """A handler removes registrations (its own, an earlier one, a later
+    one) or adds one while it is being called. Whether the handler touched
+    is still called for the change in flight is left open; from the next
+    change on the counters decide, and when everything has been removed the
+    notifier populations are back to their initial sizes."""
+    import itertools
+    from traits.observation.exceptions import NotifierNotFound
+    acts = ("remove-self", "remove-earlier", "remove-later", "add-third",
+            "remove-self-and-readd")
+    for ename, act, n_self in itertools.product(EXPRS, acts, (1, 2)):
+        case = {"reentrant": act, "expr": ename, "n": n_self}
+        ctx.case(case)
+        ctx.ev()
+        pool = G.make_pool()
+        root, n1, n2 = pool
+        root.child = n1
+        root.kids = [n1, n2]
+        base = G.fingerprint(G.all_objects(pool))
+        calls = {"early": 0, "actor": 0, "late": 0, "third": 0}
+        count = {"early": 1, "actor": n_self, "late": 1, "third": 0}
+        done = []
+
+        def early(ev):
+            calls["early"] += 1
+
+        def late(ev):
+            calls["late"] += 1
+
+        def third(ev):
+            calls["third"] += 1
+
+        def actor(ev):
+            calls["actor"] += 1
+            if done:
+                return
+            done.append(1)
+            if act in ("remove-self", "remove-self-and-readd"):
+                root.observe(actor, ename, remove=True)
+                count["actor"] -= 1
+                if act == "remove-self-and-readd":
+                    root.observe(actor, ename)
+                    count["actor"] += 1
+            elif act == "remove-earlier":
+                root.observe(early, ename, remove=True)
+                count["early"] -= 1
+            elif act == "remove-later":
+                root.observe(late, ename, remove=True)
+                count["late"] -= 1
+            else:
+                root.observe(third, ename)
+                count["third"] += 1
+        hs = {"early": early, "actor": actor, "late": late, "third": third}
+        root.observe(early, ename)
+        for _ in range(n_self):
+            root.observe(actor, ename)
+        root.observe(late, ename)
+        leaf = root if ename == "value" else n1
+
+        def bad(kind, msg):
+            ctx.violation("C09:reentrant:%s:%s" % (kind, act), msg, **case)
+        ctx.tr()
+        try:
+            leaf.value += 1             # the change in flight
+        except Exception as exc:
+            bad("raises", "the change raised %r" % (exc,))
+            continue
+        if not done:
+            bad("harness", "the acting handler was not called")
+            continue
+        for k in calls:
+            calls[k] = 0
+        ctx.tr()
+        leaf.value += 1                 # the next change: counters decide
+        want = {k: (1 if count[k] > 0 else 0) for k in count}
+        if calls != want:
+            bad("call-count", "%s with %d registration(s) of the acting "
+                "handler, which did '%s' during a change: the next change "
+                "called %r, expected %r" % (ename, n_self, act, calls, want))
+            continue
+        ctx.outcome("counted-call")
+        # remove what is left; one more removal raises; baseline restored
+        ok = True
+        for k, n in count.items():
+            for _ in range(n):
+                try:
+                    root.observe(hs[k], ename, remove=True)
+                except Exception as exc:
+                    ok = False
+                    bad("removal-raises", "removing a counted registration "
+                        "of %s raised %r" % (k, exc))
+                    break
+            if not ok:
+                break
+            try:
+                root.observe(hs[k], ename, remove=True)
+                ok = False
+                bad("extra-removal-accepted", "one removal too many of %s "
+                    "did not raise" % k)
+                break
+            except NotifierNotFound:
+                ctx.outcome("NotifierNotFound")
+        if not ok:
+            continue
+        if G.fingerprint(G.all_objects(pool)) != base:
+            bad("not-baseline", "all registrations removed but the notifier "
+                "populations differ from the initial ones")
+        else:
+            ctx.outcome("back-to-baseline")
+
+
 def shards(tier):
     evs = event_menu()
     n = len(evs)
-    return [{"first": i, "eq": eq} for eq in (False, True, "falsy")
-            for i in range(n)]
+    return [{"first": -1, "eq": False}] + \
+        [{"first": i, "eq": eq} for eq in (False, True, "falsy")
+         for i in range(n)]
 
 
 def run_shard(ctx, shard, tier):
+    if shard["first"] == -1:
+        reentrant_cells(ctx)
+        ctx.depth_completed = 2
+        return
     evs = event_menu()
     depth = 3 if tier == "quick" else 4
     frontier = [[]]
@@ -391,6 +508,11 @@ def replay(rec):
     from mc.ctx import Ctx
     ctx = Ctx("C09", None, "quick", 0)
     c = rec.get("case") or rec
+    if c.get("reentrant"):
+        reentrant_cells(ctx)
+        for v in ctx.violations.values():
+            print("  violation:", v["sig"], v["msg"])
+        return not ctx.violations
     hist = [tuple(e) for e in c["history"]]
     run_history(ctx, hist, eq=c.get("eq", False))
     print("history", hist)
